@@ -198,6 +198,36 @@ Theorem C10_call_sites_never_repeat :
 Proof. exact sites_never_repeat. Qed.
 Print Assumptions C10_call_sites_never_repeat.
 
+(* the LIFETIME of a uniqueness scope (round 4): as long as a call site is not evaluated under a
+   different parent row, its entry survives every operation - saves, plain references, unique
+   references at other call sites and iteration ends (MReset) - and only grows: what it has
+   drawn so far is a prefix of what it has drawn later, and the whole is repetition-free.  So a
+   `parent:` row that outlives an iteration (a just_once row) keeps ONE scope over all the
+   iterations; an iteration end hands the table of call sites on unchanged. *)
+Theorem C10_scope_outlives_iterations :
+  (forall ops m s p st,
+     SitesInv (m_sites m) -> Forall (keeps_parent s p) ops ->
+     lookupN s (m_sites m) = Some st -> s_parent st = p ->
+     exists st' l, lookupN s (m_sites (snd (mrun m ops))) = Some st' /\ s_parent st' = p /\
+                   s_old st' ++ s_cur st' = (s_old st ++ s_cur st) ++ l /\
+                   NoDup (s_old st' ++ s_cur st')) /\
+  (forall m, mstep m MReset = (ONone, Some (mkM (reset_locals (m_h m)) (m_sites m) (m_orc m)))).
+Proof. split; [exact scope_outlives_iterations|exact reset_keeps_sites]. Qed.
+Print Assumptions C10_scope_outlives_iterations.
+
+(* non-vacuity: four just_once targets, one persistent parent row (token 1), two unique picks
+   per iteration at one call site: the third iteration is refused (ids 1..4 are used up), and
+   the second iteration never returns a row of the first *)
+Example C10_scope_ex :
+  fst (mrun (mkM (rh_init [] [("A", "A")]) [] [0; 0; 0; 0; 0; 0; 0; 0])
+    [MSave "A" None 1; MSave "A" None 2; MSave "A" None 3; MSave "A" None 4;
+     MURef 1 1 "A" false; MURef 1 1 "A" false; MReset;
+     MURef 1 1 "A" false; MURef 1 1 "A" false; MReset;
+     MURef 1 1 "A" false])
+  = [ONone; ONone; ONone; ONone; ORefd "A" 1; ORefd "A" 2; ONone; ORefd "A" 3; ORefd "A" 4; ONone;
+     OErr (DGE "no-unused-target")].
+Proof. vm_compute. reflexivity. Qed.
+
 (* numbers and rows: by table name the row id is the number drawn; by nickname two different
    numbers never name the same row as long as the history holds no two rows with the same
    table and id (kept by every save of a fresh id) - so "no number twice" is "no row twice" *)
